@@ -27,7 +27,7 @@ import types
 REAL = {}
 CUR = threading.local()
 STATE = types.SimpleNamespace(root=None, installed=False, shims=[], files=[], flocks={}, mainctr=itertools.count(),
-                              dirty=set(), outside=None, slists=[], shared_private=set(), priv_owner={}, escapes=[], audit=False, fdpaths={},
+                              dirty=set(), outside=None, slists=[], shared_private=set(), priv_owner={}, escapes=[], audit=False, fdpaths={}, vclock=0.0,
                               audited=0)
 
 TMP_PREFIXES = ("objects/tmp", "metadata/tmp", "refs/tmp")
@@ -104,6 +104,7 @@ def reset_execution():
     STATE.slists = []
     STATE.priv_owner = {}
     STATE.fdpaths = {}
+    STATE.vclock = 0.0
     from . import gstate
     gstate.reset()  # module globals / class attributes / memoising caches of the package back to their pristine values
 
@@ -486,6 +487,17 @@ def _flock(fd, operation):
 # ----------------------------------------------------------------------------- time
 
 
+VIRTUAL_EPOCH = 1_700_000_000.0
+
+
+def advance_clock(seconds):
+    """Virtual time of an execution: it only moves when a controlled thread sleeps or a wait reaches its deadline."""
+    try:
+        STATE.vclock += max(0.0, float(seconds))
+    except (TypeError, ValueError):
+        pass
+
+
 def _sleep(seconds):
     """time.sleep on a controlled thread: no real time passes for the explorers; the sleeper simply lets others run."""
     w = cur()
@@ -493,6 +505,21 @@ def _sleep(seconds):
         return REAL["time.sleep"](seconds)
     w.real = ()
     w.point(("lock", "sleep", "-"))
+    advance_clock(seconds)
+
+
+def _mk_clock(name, scale):
+    def clock():
+        if cur() is None:
+            return REAL["time." + name]()
+        v = VIRTUAL_EPOCH + STATE.vclock if name.startswith("time") else 1000.0 + STATE.vclock
+        return int(v * scale) if scale != 1 else v
+    clock.__name__ = name
+    return clock
+
+
+_CLOCKS = (("time", 1), ("monotonic", 1), ("perf_counter", 1), ("time_ns", 10 ** 9), ("monotonic_ns", 10 ** 9),
+           ("perf_counter_ns", 10 ** 9))
 
 
 # ----------------------------------------------------------------------------- temp names
@@ -541,6 +568,7 @@ class SLock:
             # while the lock is still held, the call times out
             w.point(("lock", "acquire-timeout", self._id()))
             if self.owner is not None:
+                advance_clock(timeout)
                 return False
             self.owner = w.name
             return True
@@ -625,6 +653,8 @@ class SCond:
             t = self._token_for(w.name)
             if t is not None:
                 self.tokens.remove(t)
+            else:
+                advance_clock(timeout)  # the deadline was reached
             self.waiters.remove(w.name)
             self.lock.owner = w.name
             return t is not None
@@ -791,6 +821,9 @@ def install(locks=True):
     import time as _time
     REAL["time.sleep"] = _time.sleep
     _time.sleep = _sleep
+    for n, scale in _CLOCKS:
+        REAL["time." + n] = getattr(_time, n)
+        setattr(_time, n, _mk_clock(n, scale))
     REAL["fhs.threading"] = fhs.threading
     REAL["fhs.multiprocessing"] = fhs.multiprocessing
     REAL["fhs.atexit"] = fhs.atexit
@@ -829,6 +862,8 @@ def uninstall():
     tempfile._name_sequence = REAL["nameseq"]
     import time as _time
     _time.sleep = REAL["time.sleep"]
+    for n, _ in _CLOCKS:
+        setattr(_time, n, REAL["time." + n])
     fhs.threading = REAL["fhs.threading"]
     fhs.multiprocessing = REAL["fhs.multiprocessing"]
     fhs.atexit = REAL["fhs.atexit"]
